@@ -19,6 +19,8 @@ def build():
         cmd.append("REPO=" + os.environ["VERIF_REPO"])
     if os.environ.get("VERIF_BUILD"):
         cmd.append("B=" + os.environ["VERIF_BUILD"])
+    if "VERIF_SAN" in os.environ:       # e.g. VERIF_SAN= for a plain build to run under valgrind
+        cmd.append("SAN=" + os.environ["VERIF_SAN"])
     cp = subprocess.run(cmd, capture_output=True, text=True)
     if cp.returncode != 0:
         sys.stdout.write(cp.stdout[-3000:])
